@@ -1,6 +1,11 @@
 #!/usr/bin/env python3
-"""Prints the markdown table of seeded defects (seeded/*/meta.json) and what detected them."""
-import glob, json, os
+"""Prints the markdown table of seeded defects (seeded/*/meta.json) and what detected them;
+with --write, replaces the text between <!-- seeds:begin --> and <!-- seeds:end --> in DESIGN.md with it."""
+import glob, io, json, os, sys
+_out = io.StringIO()
+_print = print
+def print(*a):
+    _print(*a, file=_out)
 V = os.path.dirname(os.path.dirname(os.path.abspath(__file__)))
 print("| seed | breaks | change (short) | detected by (quick tier) |")
 print("|---|---|---|---|")
@@ -14,3 +19,13 @@ for d in sorted(glob.glob(os.path.join(V, "seeded", "*"))):
             det.append("%s: missed" % cid)
     s = m.get("summary", "").replace("|", "/").replace("\n", " ")
     print("| %s | %s | %s | %s |" % (os.path.basename(d), m.get("property"), s[:170] + ("…" if len(s) > 170 else ""), "; ".join(det) or "not run yet"))
+
+text = _out.getvalue()
+if "--write" in sys.argv:
+    dp = os.path.join(V, "DESIGN.md")
+    d = open(dp).read()
+    i, j = d.index("<!-- seeds:begin -->") + len("<!-- seeds:begin -->"), d.index("<!-- seeds:end -->")
+    open(dp, "w").write(d[:i] + "\n" + text + d[j:])
+    _print("DESIGN.md: %d rows" % (text.count("\n") - 2))
+else:
+    _print(text, end="")
